@@ -516,6 +516,104 @@ def o_c08(tr):
                             yield {"oracle": "limit<=max", "signature": m, "detail": "%d: %d > %d" % (i, lim, d.regparams[m]["max"])}
 
 
+def o_purchase_exact(tr):
+    """the limit moves upward by exactly the purchased number: over a block, a registration's limit is the one before plus the
+    numbers of all storage purchases for it that succeeded in the block (at any nesting depth) - as integers, not modulo 2^64"""
+    for prev, b, d in states(tr):
+        if prev is None:
+            continue
+        for m in ("wrk", "bcn"):
+            bought = {}
+            for tx in b["txs"]:
+                if tx["result"] != "ok":
+                    continue
+                for (mod, op, slots, nested) in module_ops_ids(tx["body"]):
+                    if mod == m and op[0] == "buy":
+                        bought[op[1]] = bought.get(op[1], 0) + slots
+            for i, n in bought.items():
+                if i not in prev.reg[m] or i not in d.reg[m]:
+                    continue
+                pl, nl = prev.reg[m][i]["limit"], d.reg[m][i]["limit"]
+                if pl == "none" or nl == "none":
+                    continue
+                if int(nl) != int(pl) + n:
+                    yield {"oracle": "purchase-raises-by-exactly-n", "signature": m, "detail": "%s %d: limit %s -> %s after successful purchases of %d slots" % (m, i, pl, nl, n)}
+
+
+def module_ops_ids(body):
+    """[(module, (op, id), slots, nested)] for every storage purchase the transaction would execute"""
+    ops = []
+
+    def walk(t, nested):
+        k, args, subs = t
+        if k in ("wrk.buy", "bcn.buy") and len(args) >= 2 and args[0].isdigit() and args[1].isdigit():
+            ops.append((k[:3], ("buy", int(args[0])), int(args[1]), nested))
+        for x in subs:
+            walk(x, True)
+    for mm in split_msgs(body):
+        try:
+            t, _ = parse_msg(mm, 0)
+        except (KeyError, ValueError, IndexError):
+            continue
+        walk(t, False)
+    return ops
+
+
+def o_slot_check(tr):
+    """mempool admission refuses a transaction whose top-level storage purchases for one registration together exceed what
+    can still be purchased for it (maximum in force minus its limit, as committed before the check)"""
+    for prev, b, d in states(tr):
+        if prev is None:
+            continue
+        for c in b["checks"]:
+            if c["result"] != "ok" or c["hdr"].get("sig", "ok") != "ok":
+                continue
+            want = {}
+            for (mod, op, slots, nested) in module_ops_ids(c["body"]):
+                if not nested:
+                    want[(mod, op[1])] = want.get((mod, op[1]), 0) + slots
+            for (m, i), n in want.items():
+                if i not in prev.reg[m] or prev.reg[m][i]["limit"] == "none":
+                    continue
+                room = max(0, prev.regparams[m]["max"] - int(prev.reg[m][i]["limit"]))
+                if n > room:
+                    yield {"oracle": "slot-check", "signature": m, "detail": "CHECK %s admitted: purchases of %d slots for %s %d, %d purchasable" % (c["n"], n, m, i, room)}
+
+
+def addr_norm(tok):
+    """one spelling per address: U3 = A3, UMent = Ment"""
+    if tok.startswith("U") and len(tok) > 1:
+        return ("A" + tok[1:]) if tok[1].isdigit() else tok[1:]
+    return tok
+
+
+def o_whitelist_listing(tr):
+    """the whitelist the chain lists (and exports) is the set of addresses that were whitelisted and not removed since - followed
+    through the history: the genesis line, then every whitelist message that succeeded, at any nesting depth"""
+    wl = None
+    for l in tr.script_lines:
+        if l.startswith("G ent "):
+            m = re.search(r"\bwl=(\S+)", l)
+            wl = set() if not m or m.group(1) == "-" else set(addr_norm(x) for x in m.group(1).split(","))
+    if wl is None:
+        return
+    for prev, b, d in states(tr):
+        for tx in b["txs"]:
+            if tx["result"] != "ok":
+                continue
+            body = tx["body"]
+            for k, w in enumerate(body):
+                if w == "ent.wl" and k + 2 < len(body):
+                    if body[k + 1] == "1":
+                        wl.add(addr_norm(body[k + 2]))
+                    elif body[k + 1] == "2":
+                        wl.discard(addr_norm(body[k + 2]))
+        listed = set(addr_norm(x) for x in d.wl)
+        if listed != wl:
+            yield {"oracle": "whitelist-listing", "signature": "differs-from-history", "detail": "listed %s, whitelisted by the history %s" % (sorted(listed)[:8], sorted(wl)[:8])}
+            return
+
+
 def o_decide_succeeds(tr):
     """the signer list in force is the one that counts: a decision (accept or reject) on a raised order by an address on the
     stored signer list — however that list spells it — which has not decided that order yet is accepted (single-message
@@ -1452,9 +1550,9 @@ def o_record_query(tr):
 
 
 ORACLES = {
-    "C02": [o_c02, o_invariants, o_c03], "C03": [o_c03, o_c13], "C04": [o_c04, o_invariants, o_import_inv("enterprise")], "C05": [o_c05, o_c05_granter, o_c05_amount], "C07": [o_c07, o_c08, o_c08_prune, o_record_query, o_record_as_submitted, o_import_same], "C08": [o_c08, o_c08_prune, o_record_query, o_import_same],
+    "C02": [o_c02, o_invariants, o_c03], "C03": [o_c03, o_c13], "C04": [o_c04, o_invariants, o_import_inv("enterprise")], "C05": [o_c05, o_c05_granter, o_c05_amount, o_slot_check], "C07": [o_c07, o_c08, o_c08_prune, o_record_query, o_record_as_submitted, o_import_same], "C08": [o_c08, o_c08_prune, o_purchase_exact, o_record_query, o_import_same],
     "C09": [o_c09, o_owner_writes, o_import_same, o_owner_canonical], "C10": [o_c10, o_c10_fee, o_invariants, o_import_inv("stream")], "C11": [o_c11, o_c11_zero, o_c11_clock, o_c11_topup, o_c11_rate], "C12": [o_c12, o_c12_live, o_c11_topup, o_c16], "C14": [o_c14], "C16": [o_c16, o_c03, o_c06_plain, o_c08, o_decide_succeeds, o_c10_fee], "C18": [o_c18, o_c09, o_c15, o_c20, o_page_progress, o_c08, o_c08_prune, o_untouched_order],
-    "C13": [o_c13, o_owner_writes, o_import_same, o_c18], "C17": [o_c17, o_page_progress, o_c04, o_import_inv("enterprise")], "C20": [o_c20, o_page_progress], "C15": [o_c15, o_invariants], "C06": [o_c06], "C01": [],
+    "C13": [o_c13, o_owner_writes, o_import_same, o_c18], "C17": [o_c17, o_page_progress, o_c04, o_import_inv("enterprise")], "C20": [o_c20, o_page_progress, o_whitelist_listing], "C15": [o_c15, o_invariants], "C06": [o_c06, o_slot_check], "C01": [],
 }
 
 
@@ -1480,6 +1578,11 @@ def pure_case_key(q, ans):
 def run_pure_oracles(pid, q, ans):
     t = q.split()
     out = []
+    if pid in ("C13", "C09") and len(t) == 5 and t[0] == "ownermsg":
+        want = "1" if (t[3][0] in "AU" and t[3][1:].isdigit() and t[4] == "A" + t[3][1:]) else "0"
+        if ans != want:
+            out.append({"oracle": "owner-gate", "signature": "msg/%s/%s/%s" % (t[1], t[2], t[3][0] if t[3] not in ("none", "-") else t[3]),
+                        "detail": "%s %s message signed by %s on a registration with stored owner %s: %s, must be %s" % (t[1], t[2], t[4], t[3], "took effect" if ans == "1" else ans, "refused" if want == "0" else "accepted"), "request": q})
     if pid in ("C13", "C09") and len(t) == 4 and t[0] == "ownergate":
         # only the account the stored owner string decodes to passes the gate (A<i>/U<i>: the canonical resp. upper-case spelling)
         want = "1" if (t[2][0] in "AU" and t[2][1:].isdigit() and t[3] == "A" + t[2][1:]) else "0"
@@ -1551,6 +1654,15 @@ def run_pure_oracles(pid, q, ans):
         a = t[2]
         if re.match(r"^([0-9a-f]{2})+$", ans) and (len(ans) != 2 + len(a) or ans[2:] != a):
             out.append({"oracle": "address-key-layout", "signature": t[1], "detail": "key of address %s is %s: not prefix + address (two addresses with the same leading bytes would share it)" % (a or "(empty)", ans), "request": q})
+    if pid in ("C11", "C12") and len(t) == 3 and t[0] == "dur" and re.match(r"^-?\d+$", t[1]) and re.match(r"^-?\d+$", t[2]):
+        # floor(deposit / flow rate) whole seconds for positive operands; the code's own ceiling (it answers 2^63-1 when the
+        # quotient does not fit 64 bits, which every caller then refuses) is the only other admissible answer
+        dep, rate = int(t[1]), int(t[2])
+        if dep > 0 and rate > 0:
+            want = dep // rate
+            want = str(want) if want < (1 << 63) else str((1 << 63) - 1)
+            if ans != want:
+                out.append({"oracle": "duration-is-floor", "signature": "dur", "detail": "deposit %d at %d per second lasts %s whole seconds, the code says %s" % (dep, rate, want, ans), "request": q})
     if pid == "C12" and t and t[0] in ("valfee", "dur") and ans == "panic":
         if t[0] == "valfee" and 0 <= int(t[1]) <= 10**18 and int(t[2]) < (1 << 255):
             out.append({"oracle": "arithmetic-panic", "signature": "valfee", "detail": q, "request": q})
